@@ -29,19 +29,32 @@ open LolHtml LolHtml.Model LolHtml.Model.TagStates LolHtml.Spec.Attrs
 
 /-- **Side-condition on the current code**: the tag / attribute states of the generated table are the
 ones the proofs were made for. If this fails after a change to `syntax/tag/*.rs`,
-`#eval tagStatesWitness Gen.Syntax.table` names the state and the first differing arm. -/
+`#eval tagStatesWitness Gen.Syntax.table` names the state and the first input class (`2·byte`, `+1` when the byte is
+the closing quote, 512 / 513 = end of input on a last / non-last slice) that resolves to a different arm, or 1000
+(enter actions / memchr needle) / 3000 (sequence arms) / 2000 (missing state, byte classes). The comparison is by
+RESOLUTION (`Lemmas/ArmResolve.lean`): reordering arms with disjoint patterns does not affect it. -/
 theorem tagStates_gen : TagStatesOk Gen.Syntax.table = true := by decide +kernel
 
 theorem tagStatesWitness_gen : tagStatesWitness Gen.Syntax.table = [] := by decide +kernel
+
+/-! Regression examples for the side-condition itself (tag_name_state = state 31, arms for whitespace, `>`, `/`, eof, `_`;
+the mutations find the arms by pattern, so the examples do not depend on the order the Rust lists them in):
+a harmless reordering is accepted; a reordering that changes which arm a byte selects (`/` after the catch-all) and an
+exchange of two arms' actions are rejected, and the witness names the state and the input class (94 = 2·47: the byte `/`). -/
+example : TagStatesOk (Gen.Syntax.table.modArms 31 (swapArms (.byte 62) (.byte 47))) = true := by decide +kernel
+example : tagStatesWitness (Gen.Syntax.table.modArms 31 (swapArms (.byte 47) .any)) = [("tag_name_state", 94)] := by decide +kernel
+example : tagStatesWitness (Gen.Syntax.table.modArms 31 (swapBodies (.byte 47) .eof)) = [("tag_name_state", 94)] := by decide +kernel
+/-- the byte classes are compared as sets of bytes -/
+example : TagStatesOk { Gen.Syntax.table with whitespace := [12, 9, 13, 10, 32], alpha := [(65, 90), (97, 109), (110, 122)] } = true := by
+  decide +kernel
+example : tagStatesWitness { Gen.Syntax.table with whitespace := [12, 9, 13, 10] } = [("whitespace class", 2000)] := by decide +kernel
 
 /-- the `>` arm of before_attribute_value_state ends in `--> dyn next_text_parsing_state`, or (finding F1 of
 C03, before its repair) in `--> data_state`; the proofs accept both -/
 theorem trans36_cases (t : Table) : trans36 t = .gotoDyn ∨ trans36 t = .goto t.dataState := by
   unfold trans36
   split
-  · split
-    · exact Or.inl rfl
-    · exact Or.inr rfl
+  · exact Or.inl rfl
   · exact Or.inr rfl
 
 variable {κ : Type}
@@ -920,14 +933,17 @@ example : (ETag.applyAll ⟨[97], [([88], [49], none), ([98], [], none), ([120],
 Li) is disjoint from the void list, so the fast path changes nothing -/
 theorem voidLists_gen : Gen.Tags.cfg.nonVoidFast.all (fun h => !Gen.Tags.cfg.void.contains h) = true := by decide +kernel
 
-/-- the void list of the code is the list of elements the standard's tree builder inserts and
-immediately pops: area base basefont bgsound br col embed hr img input keygen link meta param source
-track wbr (hashes of these names) -/
-theorem voidList_gen : Gen.Tags.cfg.void =
-    [[97,114,101,97], [98,97,115,101], [98,97,115,101,102,111,110,116], [98,103,115,111,117,110,100],
-     [98,114], [99,111,108], [101,109,98,101,100], [104,114], [105,109,103], [105,110,112,117,116],
-     [107,101,121,103,101,110], [108,105,110,107], [109,101,116,97], [112,97,114,97,109],
-     [115,111,117,114,99,101], [116,114,97,99,107], [119,98,114]].map NameHash.ofBytes := by decide +kernel
+/-- the 17 void elements of the standard: the elements its tree builder inserts and immediately pops -/
+def stdVoid : List Nat :=
+  [[97,114,101,97], [98,97,115,101], [98,97,115,101,102,111,110,116], [98,103,115,111,117,110,100],
+   [98,114], [99,111,108], [101,109,98,101,100], [104,114], [105,109,103], [105,110,112,117,116],
+   [107,101,121,103,101,110], [108,105,110,107], [109,101,116,97], [112,97,114,97,109],
+   [115,111,117,114,99,101], [116,114,97,99,107], [119,98,114]].map NameHash.ofBytes
+
+/-- the void list of the code contains exactly the hashes of area base basefont bgsound br col embed hr img input
+keygen link meta param source track wbr — as a SET: the order in which the Rust lists them does not matter -/
+theorem voidList_gen : Gen.Tags.cfg.void.all (fun h => stdVoid.contains h) = true ∧
+    stdVoid.all (fun h => Gen.Tags.cfg.void.contains h) = true := by decide +kernel
 
 /-- **C16_context (content).** In the HTML namespace an element can have content iff its name is not in
 the void list (names without a hash never are); in SVG / MathML iff the tag is not self-closing. -/
